@@ -43,3 +43,4 @@ Print Assumptions FloatEquiv.tr_ReadFloat_total.
 Print Assumptions TimeWheelEquiv.tr_tw_After_pos_equiv.
 Print Assumptions SWRREquiv.tr_BSWL_rounds_equiv.
 Print Assumptions SWRREquiv.tr_BSWL_rounds_model.
+Print Assumptions SWRREquiv.tr_BSWL_rounds_positive.
